@@ -141,8 +141,8 @@ pub struct Conn {
     pub pending_rollback: bool,
     /// the client has no agency (last answer was Await)
     pub awaiting: bool,
-    /// index recorded by the last successful find-intersect
-    pub from_idx: usize,
+    /// chain index of the start point of the current scan when that point is on the chain
+    pub from_idx: Option<usize>,
 }
 
 /// What the node did during one import (used by the harness to classify a history).
@@ -229,7 +229,7 @@ impl Node {
     }
     fn connect(&mut self) {
         if self.conn.is_none() {
-            self.conn = Some(Conn { read_idx: 0, pending_rollback: true, awaiting: false, from_idx: 0 });
+            self.conn = Some(Conn { read_idx: 0, pending_rollback: true, awaiting: false, from_idx: None });
             self.ev.fresh_connection = true;
         }
     }
@@ -241,7 +241,10 @@ impl Node {
         self.scheduled = None;
         let c = self.conn.clone().unwrap_or_default();
         let len = self.world.chain.len();
-        let mut keep = if m.to_from { c.from_idx } else { c.read_idx.saturating_sub(m.back as usize) };
+        let mut keep = match (m.to_from, c.from_idx) {
+            (true, Some(idx)) => idx,
+            _ => c.read_idx.saturating_sub(m.back as usize),
+        };
         keep = keep.min(len);
         if let Some(d) = self.max_fork_depth {
             keep = keep.max(len.saturating_sub(d));
@@ -258,11 +261,6 @@ impl Node {
         self.connect();
         self.scan_from_slot = Some(*point.slot_number);
         self.forwards_since_scan_start = 0;
-        let awaiting = self.conn.as_ref().unwrap().awaiting;
-        if awaiting {
-            self.ev.intersect_skipped_no_agency += 1;
-            return;
-        }
         let found = if point.is_origin() {
             Some(0)
         } else {
@@ -272,11 +270,17 @@ impl Node {
                 .position(|b| b.slot == *point.slot_number && b.hash == point.block_hash)
                 .map(|i| i + 1)
         };
+        // remembered for the `to_from` selector of a scheduled chain switch only
+        self.conn.as_mut().unwrap().from_idx = found;
+        let awaiting = self.conn.as_ref().unwrap().awaiting;
+        if awaiting {
+            self.ev.intersect_skipped_no_agency += 1;
+            return;
+        }
         match found {
             Some(idx) => {
                 let c = self.conn.as_mut().unwrap();
                 c.read_idx = idx;
-                c.from_idx = idx;
                 c.pending_rollback = true;
                 self.ev.intersect_found += 1;
             }
